@@ -161,6 +161,16 @@ func c02Find(bs []c02Bound, p d2ast.Position, what string) c02Bound {
 // that segment's value.
 var c02Segments bool
 
+// c02DashBeforeTerminator: from off on, spaces and dashes follow and the last
+// dash stands directly before a line end or one of ; # { } [ ].
+func c02DashBeforeTerminator(s string, off int) bool {
+	j := off
+	for j < len(s) && (s[j] == ' ' || s[j] == '-') {
+		j++
+	}
+	return j > off && j < len(s) && s[j-1] == '-' && strings.IndexByte("\n;#{}[]", s[j]) >= 0
+}
+
 func c02WalkU(s string, bs []c02Bound, n d2ast.Node, parent d2ast.Range, depth int) {
 	if n == nil || depth > 12 {
 		return
@@ -188,11 +198,19 @@ func c02WalkU(s string, bs []c02Bound, n d2ast.Node, parent d2ast.Range, depth i
 				continue // reported by the ordering assertion of the segment node
 			}
 			nd.Cover("segment")
-			k2, err := ParseKey(s[a.byteOff:b.byteOff])
-			if err != nil {
-				// a segment such as "-" is only a key when something follows it
-				k2, err = ParseKey(s[a.byteOff:b.byteOff] + " ")
+			if b.byteOff > a.byteOff && s[b.byteOff-1] == '\\' && nd.Known("C02-trailing-escape-range") {
+				// recorded finding: the range of an unquoted string that ends in an escape
+				// sequence stops after the backslash
+				continue
 			}
+			if c02DashBeforeTerminator(s, b.byteOff) && nd.Known("C02-dash-before-terminator-range") {
+				// recorded finding: a dash directly before a line end or ; # { } [ ] is part of
+				// the string's value but not of its range
+				continue
+			}
+			// the text is parsed as it stands in the input: followed by something
+			// (a dash at the very end of a key text would start a connection)
+			k2, err := ParseKey(s[a.byteOff:b.byteOff] + " ")
 			nd.Assert(err == nil && k2 != nil && len(k2.Path) == 1, "the source text of a key segment parses as one key segment")
 			nd.Assert(k2.Path[0].Unbox().ScalarString() == seg.Unbox().ScalarString(), "the source text of a key segment parses back to the segment's value")
 		}
